@@ -175,6 +175,21 @@ def check(ctx):
             for doc in json.load(open(cp)):
                 case = case_from_doc(doc)
                 check_case(ctx, case, d, [(doc["cores"], doc["buffer_size"], doc.get("sched"))], dist)
+        # a family that is rare among the random cases: interleaved FASTA input whose header comments contain '>' and '@'
+        # (the reader must keep mates together and must not take a '>' inside a header for a record start), small chunks
+        for _ in range(2 if ctx.quick else 10):
+            for _try in range(80):
+                case = gen_case(rng, True, not ctx.quick)
+                bb = case["cfg"].base
+                if bb.fasta and not bb.strip_suffix and bb.rename is None:
+                    break
+            else:
+                continue
+            case["cfg"].interleaved_in = True
+            case["side_files"], case["fasta_out"] = False, None
+            tag_names(case)
+            check_case(ctx, case, d, [(rng.choice([2, 3]), rng.choice([300, 512]), None), (2, 1000, rng.randrange(1, 10**6))], dist)
+            dist["interleaved FASTA with '>' in headers"] = dist.get("interleaved FASTA with '>' in headers", 0) + 1
         n = ctx.size(40, 400)
         for k in range(n):
             paired = rng.random() < 0.35
